@@ -60,30 +60,50 @@ class Fault:
         return comp == self.component and idx == self.index
 
 
-class RecordingProblem:
-    """Duck-typed Problem proxy (pygradflow only uses attributes and the five callbacks)."""
+def _problem_base():
+    from pygradflow.problem import Problem
+
+    return Problem
+
+
+class ProxyProblem(_problem_base()):
+    """A genuine Problem subclass (as a user would write) that forwards to an inner problem and shares
+    its bound arrays."""
+
+    def __init__(self, inner):
+        self.inner = inner
+        kw = {}
+        if inner.num_cons > 0:
+            kw = dict(cons_lb=inner.cons_lb, cons_ub=inner.cons_ub)
+        super().__init__(inner.var_lb, inner.var_ub, **kw)
+
+    def obj(self, x):
+        return self.inner.obj(x)
+
+    def obj_grad(self, x):
+        return self.inner.obj_grad(x)
+
+    def cons(self, x):
+        return self.inner.cons(x)
+
+    def cons_jac(self, x):
+        return self.inner.cons_jac(x)
+
+    def lag_hess(self, x, y):
+        return self.inner.lag_hess(x, y)
+
+
+class RecordingProblem(ProxyProblem):
+    """Problem proxy logging every callback call; optional fault injection."""
 
     def __init__(self, inner, fault=None, record_sites=True, keep_args=True):
-        self.inner = inner
-        self.var_lb = inner.var_lb
-        self.var_ub = inner.var_ub
-        self.cons_lb = inner.cons_lb
-        self.cons_ub = inner.cons_ub
-        self.num_cons = inner.num_cons
+        super().__init__(inner)
         self.fault = fault
         self.record_sites = record_sites
         self.keep_args = keep_args
         self.calls = []          # dicts: comp, idx, x, inbox, site, faulted
         self.counts = {c: 0 for c in COMPONENTS}
         self.enabled = True
-
-    @property
-    def num_vars(self):
-        return self.inner.num_vars
-
-    @property
-    def var_bounded(self):
-        return self.inner.var_bounded
 
     def _note(self, comp, x):
         idx = self.counts[comp]
@@ -225,8 +245,14 @@ class VirtualClock:
         self.expired_seen = False
         self.displayed = 0
 
+    def __call__(self):
+        # also usable where the code under test binds the function itself (`from time import time`)
+        return self._read(sys._getframe(1))
+
     def time(self):
-        f = sys._getframe(1)
+        return self._read(sys._getframe(1))
+
+    def _read(self, f):
         obj = f.f_locals.get("self")
         meth = f.f_code.co_name
         caller = f.f_back.f_code.co_name if f.f_back is not None else ""
@@ -273,6 +299,16 @@ class Patch:
 
     def __init__(self):
         self.saved = []
+
+    def set_everywhere(self, orig, value, prefix="pygradflow"):
+        """Replaces every module-level binding of `orig` in already imported pygradflow modules (covers
+        `from x import f` copies made at import time)."""
+        for name, mod in list(sys.modules.items()):
+            if mod is None or not name.startswith(prefix):
+                continue
+            for attr, val in list(vars(mod).items()):
+                if val is orig:
+                    self.set(mod, attr, value)
 
     def set(self, mod, name, value):
         self.saved.append((mod, name, getattr(mod, name)))
@@ -435,7 +471,7 @@ def run_solve(problem, params, x0=None, y0=None, clock=None, lin_fail=None, lin_
             p.set(TM, "time", clock)
         if lin_fail is not None or lin_record:
             out.factory = FaultLinearSolverFactory(LS.linear_solver, lin_fail, lin_record)
-            p.set(LS, "linear_solver", out.factory)
+            p.set_everywhere(LS.linear_solver, out.factory)
         try:
             solver = make_monitored_solver(problem, params, extra_callbacks)
         except Exception as ex:
